@@ -99,7 +99,7 @@ CHECKS = {
         "assumptions": [IMPORT, "wrappers around the real st3/crossbeam types only count operations and shadow item positions"],
     },
     "C05": {
-        "parts": [qsx("q.c05")],
+        "parts": [qsx("q.c05"), seqx("pool.c05")],
         "design_ref": "DESIGN.md §5 C05",
         "technique": "explicit-state BFS with priority-rich alphabets (incl. i64 extremes) on the imported queue sources; oracle on ground-truth container contents",
         "level_text": "in every reachable state, the item a pop returns is checked against the real contents of the queue it came from: no strictly higher-priority item that entered earlier is still waiting, FIFO among equals",
@@ -126,12 +126,48 @@ CHECKS = {
         "assumptions": [IMPORT, SHIMS],
     },
     "C01": {
-        "parts": [loomq("loom.c01")],
+        "parts": [loomq("loom.c01"), seqx("pool.c01")],
         "design_ref": "DESIGN.md §5 C01",
         "technique": "loom exploration of the queue layer the way the runtime uses it (submitters push into a loop's local task queue) + (pool layer: explicit-state search, see C12/C13 scenarios)",
         "level_text": "every interleaving within the preemption bound of submitter / owner / thief programs on one local queue handle; loom's cell-causality checker decides whether st3's single-producer contract is respected",
         "level_note": "queue layer only at the moment",
         "rule": "one evaluation per explored schedule",
         "assumptions": [IMPORT, SHIMS],
+    },
+    "C02": {
+        "parts": [seqx("pool.c02")],
+        "design_ref": "DESIGN.md §5 C02",
+        "technique": "explicit-state search over pool operation histories {submit, pass, advance, cancel, wait, join, stop} on real CoroutinePools sharing a small-capacity global task queue under a virtual clock; partitioned below every 2-op prefix; every history is followed by a drive to quiescence",
+        "level_text": "every distinct observable pool state within the depth bound is visited; a timed wait and a wait without timeout (after driving all pools to quiescence) must return the task's own outcome once it has finished, whichever pool ran it",
+        "level_note": "1-2 pools; waiter check/register/block interleavings with the completing loop are not in this scenario",
+        "rule": "BFS with dedup on per-pool and per-task observables; non-trivial = state below a 2-op prefix",
+        "assumptions": [REAL, CLOCK, "one driver thread plays every event loop (real-thread interleavings of the same windows are the pause-point explorer's job)"],
+    },
+    "C11": {
+        "parts": [seqx("pool.c11")],
+        "design_ref": "DESIGN.md §5 C11",
+        "technique": "explicit-state search over pool operation histories {submit, pass, advance, cancel, wait, join, stop} on real CoroutinePools sharing a small-capacity global task queue under a virtual clock; partitioned below every 2-op prefix; every history is followed by a drive to quiescence",
+        "level_text": "running size is checked against max in every state, against zero at quiescence / after stop, and stop's virtual duration against its timeout, for (min,max,keep-alive) in four configurations",
+        "level_note": "pools with min_size >= 1 are driven only through stop() (a single idle worker of such a pool never yields, which is not one of the listed properties)",
+        "rule": "BFS with dedup on per-pool and per-task observables",
+        "assumptions": [REAL, CLOCK, "one driver thread plays every event loop (real-thread interleavings of the same windows are the pause-point explorer's job)"],
+    },
+    "C12": {
+        "parts": [seqx("pool.c12")],
+        "design_ref": "DESIGN.md §5 C12",
+        "technique": "explicit-state search over pool operation histories {submit, pass, advance, cancel, wait, join, stop} on real CoroutinePools sharing a small-capacity global task queue under a virtual clock; partitioned below every 2-op prefix; every history is followed by a drive to quiescence",
+        "level_text": "state monotonicity after every op, rejection after the first stop, accepted tasks run before stop succeeds, waiters settled; a hang of stop/wait is observed by the fork runner",
+        "level_note": "1 pool; waiter || stop on real threads is the pause-point explorer's job",
+        "rule": "BFS with dedup on per-pool and per-task observables",
+        "assumptions": [REAL, CLOCK, "one driver thread plays every event loop (real-thread interleavings of the same windows are the pause-point explorer's job)"],
+    },
+    "C13": {
+        "parts": [seqx("pool.c13")],
+        "design_ref": "DESIGN.md §5 C13",
+        "technique": "explicit-state search over pool operation histories {submit, pass, advance, cancel, wait, join, stop} on real CoroutinePools sharing a small-capacity global task queue under a virtual clock; partitioned below every 2-op prefix; every history is followed by a drive to quiescence",
+        "level_text": "cancel by the driver, by another task's body and by the task itself, for queued / suspended / running / finished targets; the set of other tasks that run to completion must be unaffected and a waiter of a task cancelled before it starts must be settled",
+        "level_note": "max_size 1 and 2; the cross-thread lookup-then-signal race is the pause-point explorer's job",
+        "rule": "BFS with dedup on per-pool and per-task observables",
+        "assumptions": [REAL, CLOCK, "one driver thread plays every event loop (real-thread interleavings of the same windows are the pause-point explorer's job)"],
     },
 }
